@@ -8,6 +8,7 @@ import (
 	"context"
 	"errors"
 	"fmt"
+	"io"
 	"reflect"
 	"sort"
 	"strconv"
@@ -57,6 +58,22 @@ func renderCtx(ctx context.Context) string {
 type userErr struct{ n int }
 
 func (e userErr) Error() string { return "user-" + strconv.Itoa(e.n) }
+
+// Unwrap: to the library an error is an opaque payload — no operator may treat a notification differently because of WHAT the
+// error is. The scripted errors therefore wrap the well-known values a library might be tempted to special-case (a source that
+// failed with its own cancellation / deadline / end of input while the subscription context is alive); they are still rendered
+// by their number.
+func (e userErr) Unwrap() error {
+	switch e.n % 4 {
+	case 1:
+		return context.Canceled
+	case 2:
+		return context.DeadlineExceeded
+	case 3:
+		return io.EOF
+	}
+	return nil
+}
 
 type panicVal struct{ n int } // a non-error panic value
 
